@@ -612,6 +612,10 @@ func (e *Env) call(x *Expr) TTerm {
 	case "key":
 		return un("skey", "Int")
 	// errors / interfaces
+	case "nodeHeight":
+		return un("nheight", "Int")
+	case "valHeight":
+		return un("vheight", "Int")
 	case "dyn":
 		return un("itype", "Int")
 	case "pref":
